@@ -628,16 +628,16 @@ static std::vector<Shape> shapes() {
 static RawPDU* innermost_raw(PDU* p) { while (p->inner_pdu()) p = p->inner_pdu(); return p->pdu_type() == PDU::RAW ? static_cast<RawPDU*>(p) : 0; }
 
 // sweep kinds: 0 payload word, even length; 1 payload word, odd length (word straddles the padded last byte); 2 IPv4 id of the outermost IP; 3 word inside the first ICMP extension object
-static const char* KIND[] = {"payload-even", "payload-odd", "ip-id", "ext-object"};
+static const char* KIND[] = {"payload-even", "payload-odd", "ip-id", "ext-object", "payload-even-long", "payload-odd-long"};
 
 static bool sweep_applicable(PDU& root, int kind) {
-    if (kind <= 1) return innermost_raw(&root) != 0;
+    if (kind <= 1 || kind >= 4) return innermost_raw(&root) != 0;
     if (kind == 2) return root.find_pdu<IP>() != 0;
     ICMP* c = root.find_pdu<ICMP>(); ICMPv6* c6 = root.find_pdu<ICMPv6>();
     return (c && c->has_extensions()) || (c6 && c6->has_extensions());
 }
 static void set_word(PDU& root, int kind, uint16_t v) {
-    if (kind <= 1) { RawPDU* r = innermost_raw(&root); Bytes& p = r->payload(); size_t at = kind == 0 ? 0 : p.size() - 2; p[at] = uint8_t(v >> 8); p[at + 1] = uint8_t(v); }
+    if (kind <= 1 || kind >= 4) { RawPDU* r = innermost_raw(&root); Bytes& p = r->payload(); size_t at = (kind == 0 || kind == 4) ? 0 : p.size() - 2; p[at] = uint8_t(v >> 8); p[at + 1] = uint8_t(v); }
     else if (kind == 2) root.find_pdu<IP>()->id(v);
     else {
         ICMP* c = root.find_pdu<ICMP>(); ICMPv6* c6 = root.find_pdu<ICMPv6>();
@@ -650,7 +650,7 @@ static void set_word(PDU& root, int kind, uint16_t v) {
 // values of the reduced sweep: stride 251, boundaries, and (computed with the reference sum) the values that drive each checksum field to 0x0000 / 0xffff
 static std::vector<uint32_t> reduced_values(PDU& root, int kind) {
     std::set<uint32_t> v;
-    for (uint32_t x = 0; x < 65536; x += (A.thorough() ? 13 : 251)) v.insert(x);
+    for (uint32_t x = 0; x < 65536; x += 251) v.insert(x);
     for (uint32_t x : {0u, 1u, 2u, 0xfeu, 0xffu, 0x100u, 0x101u, 0x7fffu, 0x8000u, 0x8001u, 0xff00u, 0xfffeu, 0xffffu}) v.insert(x);
     // the checksum is linear in the word: field(v) = ~(S0 +' v) (or byte-swapped for the odd placement). Probe v = 0, read every 16-bit checksum
     // field the dissector found, and add the words that bring that field to 0xffff, 0x0000 and their neighbours.
@@ -675,11 +675,11 @@ static std::vector<uint32_t> reduced_values(PDU& root, int kind) {
 
 static void sweep(const Shape& sh, size_t shape_no, int kind, int job, int njobs) {
     size_t len = kind == 1 ? sh.odd : sh.even;
+    if (kind >= 4) { bool r4884 = strstr(sh.name, "+ext") || strstr(sh.name, "+len"); len = (r4884 ? 600 : 1400) + (kind == 5 ? 1 : 0); }
     std::unique_ptr<PDU> root(sh.make(len));
     if (!sweep_applicable(*root, kind)) return;
-    if (kind == 2 && sh.make(len)->find_pdu<IP>() == 0) return;
     std::vector<uint32_t> vals;
-    if (g_reduced) vals = reduced_values(*root, kind);
+    if (g_reduced && !A.thorough()) vals = reduced_values(*root, kind);
     else { vals.reserve(65536); for (uint32_t x = 0; x < 65536; ++x) vals.push_back(x); }
     std::string base = std::string("family=S shape=") + std::to_string(shape_no) + " kind=" + KIND[kind] + " len=" + std::to_string(len) + " v=";
     Plan pl; bool planned = false;
@@ -717,12 +717,15 @@ static void family_x(int job, int njobs) {
     for (size_t n = 0; n <= (A.thorough() ? 1600u : 140u); ++n) sizes.push_back(n);
     for (size_t n : {255, 256, 1471, 1472, 1473, 9000, 32767, 32768}) if (n > sizes.back()) sizes.push_back(n);
     for (size_t si = 0; si < sh.size(); ++si) {
+        // RFC 4884: the length octet cannot announce more than 255 words; keep the shapes that use it inside what it can express
+        bool rfc4884_shape = strstr(sh[si].name, "+ext") || strstr(sh[si].name, "+len");
         for (size_t n : sizes) {
+            if (rfc4884_shape && n > 1000) continue;
             if (no++ % njobs != (size_t)job && g_only.empty()) continue;
             check_packet(sh[si].make(n), "family=X shape=" + std::to_string(si) + " payload=" + std::to_string(n));
         }
         // the largest packets of this shape that still fit 65535 bytes on the wire (larger ones are skipped by check_packet)
-        if (no++ % njobs == (size_t)job || !g_only.empty()) {
+        if (!rfc4884_shape && (no++ % njobs == (size_t)job || !g_only.empty())) {
             std::unique_ptr<PDU> probe(sh[si].make(200));
             size_t overhead = probe->size() - 200;
             size_t n0 = 65535 - overhead - 8;
@@ -894,7 +897,7 @@ static void family_v(int job, int njobs) {
 static void family_s(int job, int njobs) {
     std::vector<Shape> sh = shapes();
     for (size_t si = 0; si < sh.size(); ++si)
-        for (int kind = 0; kind < 4; ++kind) {
+        for (int kind = 0; kind < (A.thorough() ? 6 : 4); ++kind) {
             if (!g_only.empty()) {
                 std::string pre = std::string("family=S shape=") + std::to_string(si) + " kind=" + KIND[kind] + " ";
                 if (g_only.compare(0, pre.size(), pre) != 0) continue;
